@@ -197,6 +197,7 @@ class C06(Check):
                 key = 'romfs.init'
         if rd is not None:
             probes = []
+            existing = {(q[0].lower() if ci else q[0]) for q in paths}
             for p, kind, node in rng.sample(paths, min(len(paths), 8)):
                 pre = rng.pick(['', '/', './'])
                 probes.append((pre + p, kind, node, True))
@@ -204,9 +205,10 @@ class C06(Check):
                     probes.append((pre + flip_case(p, rng), kind, node, True))
                 else:
                     fl = flip_case(p, rng)
-                    if fl != p and fl not in [q[0] for q in paths]:
+                    if fl != p and fl not in existing:
                         probes.append((pre + fl, None, None, False))
-                probes.append((pre + p + 'x', None, None, False))
+                if ((p + 'x').lower() if ci else p + 'x') not in existing:
+                    probes.append((pre + p + 'x', None, None, False))
             probes.append(('/', 'dir', tree, True))
             probes.append(('.', 'dir', tree, True))
             for path, kind, node, exists in probes:
